@@ -213,6 +213,10 @@ pub struct Tcb {
     pub snd_nxt: u32,
     /// Oldest unACK'd sequence number. `snd_nxt - snd_una` == in-flight.
     pub snd_una: u32,
+    /// Highest sequence number ever sent plus one. Equal to `snd_nxt`
+    /// except after a go-back-N rewind pulled `snd_nxt` back: ACKs for
+    /// the original transmissions are still valid up to here.
+    pub snd_max: u32,
     /// Peer's last-advertised receive window, in bytes. Bounds how far
     /// beyond `snd_una` we're allowed to push `snd_nxt` before pausing.
     pub snd_wnd: u16,
